@@ -121,6 +121,14 @@ func runH2(r *hk.Run, rng *hk.Rand) {
 		pieces := wire.Partition(rng, body, L <= 100 && rng.Chance(20), 12)
 		// declared length
 		clMode := []string{"exact", "none", "more", "less", "exact"}[rng.Intn(5)]
+		// RST_STREAM: the first rounds walk error code x declared length x "all DATA delivered
+		// before the reset" (NO_ERROR after a complete-looking body included), then random
+		k := i / len(terms)
+		rstRandom := k >= 20
+		rstCode := []uint32{0, 8, 1, 2, 11}[k%5]
+		if term == "rst" && !rstRandom {
+			clMode = []string{"none", "exact", "more", "exact"}[(k/5)%4]
+		}
 		if term == "hdr-end" {
 			pieces = nil
 			clMode = hk.Pick(rng, []string{"exact", "none", "more"})
@@ -150,6 +158,9 @@ func runH2(r *hk.Run, rng *hk.Rand) {
 		if term != "end" && term != "end-empty" && term != "trailers" && len(pieces) > 0 && rng.Chance(70) {
 			keep = rng.Intn(len(pieces) + 1)
 		}
+		if term == "rst" && !rstRandom && (k/5)%4 < 2 {
+			keep = len(pieces) // every DATA byte (and all that was declared) arrives, then RST_STREAM
+		}
 		for j := 0; j < keep; j++ {
 			last := j == len(pieces)-1 && term == "end"
 			a := wire.H2Action{Kind: "data", Payload: pieces[j], End: last}
@@ -175,6 +186,9 @@ func runH2(r *hk.Run, rng *hk.Rand) {
 			evs = append(evs, "H2Trailers")
 		case "rst":
 			code := hk.Pick(rng, []uint32{0, 1, 2, 8, 11})
+			if !rstRandom {
+				code = rstCode
+			}
 			sc.Actions = append(sc.Actions, wire.H2Action{Kind: "rst", Code: code})
 			evs = append(evs, fmt.Sprintf("H2Rst %s", hk.CoqN(uint64(code))))
 		case "goaway-close":
@@ -243,8 +257,14 @@ func runH2(r *hk.Run, rng *hk.Rand) {
 				}
 				seen = fmt.Sprintf("(H2SeenRead %s %s %s)", cls, hk.CoqN(uint64(o.DLen)), hk.CoqBool(o.PrefixOK))
 			}
-			coq = fmt.Sprintf("H2Case %s %s %s %s %s %s %s", hk.CoqOpt(cl >= 0, hk.CoqN(uint64(max(cl, 0)))), hk.CoqBool(sc.HdrEnd),
-				hk.CoqBool(sc.Status < 0), hk.CoqList(parens(evs)), coqBig(sent), seen, hk.CoqBool(o.SameConn))
+			sid, w := sc.Recorded()
+			wireOpt := "None"
+			if sc.Status >= 0 && !sc.HdrEnd && len(w) <= 70000 {
+				wireOpt = fmt.Sprintf("(Some (%s, %s))", hk.CoqN(uint64(sid)), coqBig(w))
+				r.Count("h2.wire-level-case")
+			}
+			coq = fmt.Sprintf("H2Case %s %s %s %s %s %s %s %s", hk.CoqOpt(cl >= 0, hk.CoqN(uint64(max(cl, 0)))), hk.CoqBool(sc.HdrEnd),
+				hk.CoqBool(sc.Status < 0), hk.CoqList(parens(evs)), wireOpt, coqBig(sent), seen, hk.CoqBool(o.SameConn))
 		}
 		r.Add(hk.Case{Coq: coq, Desc: map[string]interface{}{"kind": "h2", "script": in, "seen": o}},
 			fmt.Sprintf("h2|%s|%d|%d|%d|%x|%s", term, cl, keep, len(pieces), sent, o.Mode), !consistent)
